@@ -68,6 +68,16 @@ def make_case(i, rng, tier):
     n = rng.randint(1, nmax) if rng.random() < 0.8 else rng.randint(1, 3)
     ccs = sorted(L.commands)
     trees, metas = [], []
+    if i >= len(ccs) and rng.random() < 0.12:
+        # the capture starts with StartAuthSession (all kinds of symmetric definitions, NULL included); the handle it returns
+        # is the session handle later commands of the capture use - with whatever attributes they like
+        cmd, rsp = g.exchange(cc=0x176)
+        trees += [cmd, rsp]
+        metas += [dict(kind="command", cc=None, enc=None), dict(kind="response", cc=cmd[2], enc=True if rsp[7] else None)]
+        if rsp[4] is not None:
+            h = next((n_[2] for f_, n_ in rsp[4][2] if f_ == "sessionHandle" and n_[0] == "prim"), None)
+            if h is not None and common.L_valid_session(h):
+                g.session_handle = h
     for j in range(n):
         cc = ccs[i] if (j == 0 and i < len(ccs)) else None
         cmd, rsp = g.exchange(cc=cc)
